@@ -374,6 +374,9 @@ def helper_contracts(ck, rule='HELPER-contract'):
                                                                        ' ({})'.format(reason) if reason else '')
         ck.ob(rule, module.loc(fn), bad is None, 'helper {} (reached from the functions this property\'s rules read) behaves as documented on {} cases{}'.format(
             qual, len(CONTRACTS[key]), '' if bad is None else ' -- ' + bad), key='{}|{}|{}'.format(rule, rel, qual))
+    # tables of names that the reached code looks things up in (PROTEIN_RESIDUES, ..): no two literals fused by a missing comma
+    from . import shared
+    shared.no_fused_strings(ck, sorted({rel for rel, _q in reach if '/tests/' not in rel}))
     ck.extra['closure'] = {'functions_read': len(read), 'reachable_within_5_calls': len(reach - read),
                            'helpers_with_contract': sorted('{}::{} ({})'.format(k[0], k[1], SERVES[k][ck.prop]) for k in CONTRACTS if k in reach and ck.prop in SERVES.get(k, {})),
                            'helpers_triaged_but_not_reached_on_this_tree': expected_not_reached,
